@@ -449,22 +449,31 @@ def case_submodules(seed):
              "end interface"]
         # a type with a user constructor only in module a; module b has a same-named type without constructor
         L += [f"type :: ctor{sx}", "integer :: fld", f"end type ctor{sx}"]
+        # entities that the parent submodule also obtains, under the same names, from another module (they win there and below)
+        L += [f"type :: gpoint{sx}", "integer :: of_ancestor", f"end type gpoint{sx}", "abstract interface", f"subroutine gcallback{sx}(q)", "real :: q", "end subroutine", "end interface"]
         if tag == "a":
             L += [f"interface ctor{sx}", f"module procedure make{sx}", "end interface"]
             L += ["contains", f"function make{sx}(i) result(r)", "integer, intent(in) :: i", f"type(ctor{sx}) :: r", "r%fld = i", "end function"]
         L.append(f"end module {mod}")
         files[f"{mod}.f90"] = "\n".join(L) + "\n"
-        S = [f"submodule ({mod}) {subname}", "implicit none", "contains"]
+        S = [f"submodule ({mod}) {subname}", f"use geo{sx}, only: gpoint{sx}, gcallback{sx}", "implicit none", f"type(gpoint{sx}) :: svp{tag}", f"procedure(gcallback{sx}), pointer :: spp{tag}", "contains"]
         if rng.random() < 0.5:
             S += [f"module procedure work{sx}", "end procedure"]
         else:
             S += [f"module subroutine work{sx}(x)", "integer, intent(in) :: x", "end subroutine"]
         S.append(f"end submodule {subname}")
         files[f"{mod}_{subname}.f90"] = "\n".join(S) + "\n"
-        S2 = [f"submodule ({mod}:{subname}) deep{tag}{sx}", "implicit none", f"end submodule deep{tag}{sx}"]
+        S2 = [f"submodule ({mod}:{subname}) deep{tag}{sx}", "implicit none", f"type(gpoint{sx}) :: svd{tag}", f"procedure(gcallback{sx}), pointer :: spd{tag}",
+              f"type, extends(gpoint{sx}) :: sxd{tag}", "integer :: more", f"end type sxd{tag}", f"end submodule deep{tag}{sx}"]
         files[f"{mod}_deep.f90"] = "\n".join(S2) + "\n"
         exp[f"{mod}/deep{tag}{sx}"] = {"ancestor": f"::{mod}", "parent": f"{mod}/::{subname}"}
         exp[f"{mod}/{subname}"] = {"ancestor": f"::{mod}", "parent": None, "mp": {f"work{sx}": f"{mod}::work{sx}"}}
+    files[f"geo{sx}.f90"] = "\n".join([f"module geo{sx}", "implicit none", f"type :: gpoint{sx}", "real :: x, y", f"end type gpoint{sx}", "abstract interface", f"subroutine gcallback{sx}(i)",
+                                        "integer :: i", "end subroutine", "end interface", f"end module geo{sx}"]) + "\n"
+    # the order in which the files are read is arbitrary (file names decide it)
+    names = sorted(files)
+    rng.shuffle(names)
+    files = {f"f{rank}_{n}": files[n] for rank, n in enumerate(names)}
     base = core.mktemp("vf_c07_")
     try:
         root = os.path.join(base, "src")
@@ -500,6 +509,16 @@ def case_submodules(seed):
                 if got != f"{mod}::work{sx}":
                     viol.append({"kf": {"kind": "wrong_resolution", "slot": "module_procedure_interface", "found": "unresolved" if got in (None, "unresolved") else "entity"},
                                  "w": {"submodule": subn, "module": mod, "expected": f"{mod}::work{sx}", "observed": got, "seed": seed, "files": files, "case": "submodules"}})
+    # what the parent submodule imports wins over the ancestor module's entities of the same names, in the parent and in its child
+    for tag in ("a", "b"):
+        for slot, want in ((f"svp{tag}", f"geo{sx}::gpoint{sx}"), (f"spp{tag}", f"geo{sx}::gcallback{sx}"), (f"svd{tag}", f"geo{sx}::gpoint{sx}"), (f"spd{tag}", f"geo{sx}::gcallback{sx}"),
+                           (f"sxd{tag}", f"geo{sx}::gpoint{sx}")):
+            nslots += 1
+            got = r["res"].get(slot, "absent")
+            if got != want:
+                viol.append({"kf": {"kind": "wrong_resolution", "slot": "name_imported_by_parent_submodule", "found": "unresolved" if got in ("absent", "unresolved") else "entity",
+                                    "referencing_scope": "child submodule" if slot[2] == "d" else "parent submodule"},
+                             "w": {"slot": slot, "expected": want, "observed": got, "seed": seed, "files": files, "case": "submodules"}})
     # constructors: module a's type has a user constructor, module b's same-named type has none
     nslots += 2
     if r["ctors"].get(ma) != f"{ma}::ctor{sx}":
